@@ -94,6 +94,9 @@ fn alphabet() -> Vec<Tk> {
         Tk::UseUnsigned,
         Tk::UseSigned,
         Tk::UseAddress,
+        // a storage value (or anything else on the stack) used directly as the key of a further access
+        Tk::SloadTop,
+        Tk::SstoreTop,
     ]
 }
 
@@ -508,7 +511,7 @@ impl Check for C02 {
             total.get("schedules"),
             &format!(
                 "the unifier driven directly on all judgement sets of 2..{} judgements over the C14 alphabet (3 variables x 27 judgements) \
-                 under every single deviation, outcomes compared after normalisation; programs: all stack-safe sequences <= {} over 16 evidence tokens (SLOAD / SSTORE of slots 0 and 1, 160-bit and 8-bit \
+                 under every single deviation, outcomes compared after normalisation; programs: all stack-safe sequences <= {} over 18 evidence tokens (SLOAD / SSTORE of slots 0 and 1, SLOAD / SSTORE with the key taken from the stack, 160-bit and 8-bit \
                  masks, ISZERO, keccak(0) + x, keccak(caller . 0), CALLER, CALLDATALOAD, DUP1, SWAP1) that touch storage; 240 \
                  slot-self-referential programs of 4-9 tokens (a slot's value used as array index / mapping key for a second access, \
                  with masks, zero tests and signed use in between); idiom \
